@@ -844,6 +844,8 @@ def check(P, R, tier):
     check_keyend(P, R)
     check_wholekey(P, R)
     check_keyorder(P, R)
+    import grow
+    grow.check_lastline(P, R, "RF-lastline")
     check_tzm_format(P, R)
     import tzmdecode
     nv = tzmdecode.run(R, P, "RF2-tzmvalid")
